@@ -491,12 +491,9 @@ func (g *c01Gen) eh() c01EH {
 		h.Render = g.r.Chance(12)
 		h.Tmpl = !h.Render && g.r.Chance(45)
 
+		// since fix: 6c5864d the constructor accepts 300..399 (or no code) only
 		if g.r.Chance(60) {
-			h.Code = vf.Pick(g.r, stacks.RedirectCodes)
-		}
-
-		if g.odd && g.r.Chance(40) {
-			h.Code = vf.Pick(g.r, stacks.OddCodes)
+			h.Code = vf.Pick(g.r, []int{301, 302, 303, 307, 308, 300, 399})
 		}
 	case x < 62:
 		h.K = "www"
@@ -630,9 +627,9 @@ func c01Corpus() []c01Case {
 			EH: []c01EH{{If: none, K: "silent"}}}},
 		// witness of C01_no_authenticator_is_positive (outside the hypotheses: the factory rejects such rules)
 		{Lookup: "matched", Rule: &c01Rule{Backend: true}},
-		// witness of C01_success_redirect_is_positive (outside the hypotheses: redirect code 200)
+		// (the witness of C01_success_redirect_is_positive, a redirect handler with code 200, cannot be created any more)
 		{Lookup: "matched", Rule: &c01Rule{SC: []c01Authn{{Out: c01Outcome{T: "fail", E: authn}}}, Backend: true,
-			EH: []c01EH{{If: none, K: "redirect", Code: 200, To: "http://idp"}}}},
+			EH: []c01EH{{If: none, K: "redirect", Code: 399, To: "http://idp"}}}},
 		// C01_nonvacuous: fallback on an argument error deep in a chain, then on the flag; skipped steps;
 		// a failing continue-on-error step; conditional error pipeline
 		{Lookup: "matched", Rule: &c01Rule{
